@@ -56,6 +56,12 @@ type Evaluator struct {
 	// (an implementation may legitimately skip that operand). User functions
 	// can read it to tag the calls they receive as optional.
 	OptDepth int
+	// MemoRoot: remember the outcome of every `$`-rooted operand path for the duration of one Eval. Within one
+	// Eval the root never changes and such a path depends on nothing else, so this only removes re-evaluation
+	// (nested filters re-evaluate their `$` operands once per outer member otherwise). Off where the NUMBER of
+	// user function calls is what is being judged (C14).
+	MemoRoot bool
+	memo     map[*Path]opval
 	fails    []Fail
 }
 
@@ -160,6 +166,7 @@ func (s Sub) indexes(n int64) []int64 {
 // It returns the results and, when there are none, the failure events.
 func (e *Evaluator) Eval(p *Path, root, current interface{}) ([]Res, []Fail) {
 	e.fails = nil
+	e.memo = nil
 	start := current
 	if p.Root == '$' || p.Root == 0 {
 		start = root
@@ -403,6 +410,21 @@ func whole(b bool) verdict { return verdict{whole: true, all: b} }
 
 // sub-evaluations inside a filter must not leak failure events
 func (e *Evaluator) quiet(p *Path, root, cur interface{}) (interface{}, bool) {
+	if e.MemoRoot && p.Root == '$' {
+		if m, ok := e.memo[p]; ok {
+			return m.v, m.ok
+		}
+		v, ok := e.quietRaw(p, root, cur)
+		if e.memo == nil {
+			e.memo = map[*Path]opval{}
+		}
+		e.memo[p] = opval{v, ok}
+		return v, ok
+	}
+	return e.quietRaw(p, root, cur)
+}
+
+func (e *Evaluator) quietRaw(p *Path, root, cur interface{}) (interface{}, bool) {
 	saved := e.fails
 	e.fails = nil
 	start := cur
